@@ -734,7 +734,9 @@ func c04(c *Ctx) {
 			}
 			return true
 		})
-		isLimit := func(e ast.Expr) bool { return (limitVar != nil && sameVar(info, e, limitVar)) || isField(info, e, fLimit) }
+		isLimit := func(e ast.Expr) bool {
+			return (limitVar != nil && sameVar(info, e, limitVar)) || isField(info, e, fLimit)
+		}
 		zero := func(e *GEdge) bool {
 			return edgeImplies(e, func(cnd ast.Expr, pol int) bool {
 				l, op, r, ok := cmpNorm(cnd, pol)
